@@ -172,6 +172,11 @@ def init_mime(config):
         old = logger.log if hasattr(logger, "log") else None
         logger.log = lambda m: None
         pygopherd.fileext.typemap.clear()
+        # a server process reads its tables once; mimetypes.init(files) ADDS to a database that is already there,
+        # so a world with other tables needs a fresh one
+        mimetypes._db = None
+        mimetypes.inited = False
+        mimetypes.init()
         mimetypes.encodings_map.clear()
         mimetypes.encodings_map.update({".gz": "gzip", ".Z": "compress", ".bz2": "bzip2", ".xz": "xz", ".br": "br"})  # Python's defaults
         initialization.init_mimetypes(config)
